@@ -7,7 +7,7 @@ use blots_core::environment::Environment;
 use blots_core::expressions::{
     evaluate_pairs, pairs_to_expr_with_comments, validate_portable_value,
 };
-use blots_core::formatter::format_expr;
+use blots_core::formatter::{format_expr, join_statements_with_spacing, protect_leading_minus};
 use blots_core::functions::{clear_function_call_stats, get_function_call_stats};
 use blots_core::heap::Heap;
 use blots_core::parser::{Rule, get_pairs};
@@ -243,55 +243,64 @@ fn main() -> ! {
             }
         };
 
-        // Format each statement
-        let mut formatted_output = String::new();
+        // Format each statement (expressions, output declarations and comments), keeping
+        // end-of-line comments and the blank lines between statements
+        let mut formatted_statements: Vec<(String, usize, usize)> = Vec::new();
         for pair in pairs {
-            match pair.as_rule() {
-                Rule::statement => {
-                    if let Some(inner_pair) = pair.into_inner().next() {
-                        match inner_pair.as_rule() {
-                            Rule::expression => {
-                                match pairs_to_expr_with_comments(inner_pair.into_inner()) {
-                                    Ok(expr) => {
-                                        let formatted = format_expr(&expr, None);
-                                        formatted_output.push_str(&formatted);
-                                        formatted_output.push('\n');
-                                    }
-                                    Err(e) => {
-                                        eprintln!("Error converting to AST: {}", e);
-                                        std::process::exit(1);
-                                    }
-                                }
+            if pair.as_rule() != Rule::statement {
+                continue;
+            }
+
+            let start_line = pair.as_span().start_pos().line_col().0;
+            let end_line = pair.as_span().end_pos().line_col().0;
+            let mut inner_pairs = pair.into_inner();
+
+            if let Some(first_pair) = inner_pairs.next() {
+                let formatted = match first_pair.as_rule() {
+                    Rule::comment => {
+                        // Preserve comments as-is
+                        first_pair.as_str().to_string()
+                    }
+                    Rule::output_declaration => {
+                        match pairs_to_expr_with_comments(first_pair.into_inner()) {
+                            Ok(inner_expr) => {
+                                // Wrap in Output expression
+                                let output_expr = Spanned::dummy(Expr::Output {
+                                    expr: Box::new(inner_expr),
+                                });
+                                format_expr(&output_expr, None)
                             }
-                            Rule::output_declaration => {
-                                match pairs_to_expr_with_comments(inner_pair.into_inner()) {
-                                    Ok(inner_expr) => {
-                                        // Wrap in Output expression
-                                        let output_expr = Spanned::dummy(Expr::Output {
-                                            expr: Box::new(inner_expr),
-                                        });
-                                        let formatted = format_expr(&output_expr, None);
-                                        formatted_output.push_str(&formatted);
-                                        formatted_output.push('\n');
-                                    }
-                                    Err(e) => {
-                                        eprintln!("Error converting to AST: {}", e);
-                                        std::process::exit(1);
-                                    }
-                                }
+                            Err(e) => {
+                                eprintln!("Error converting to AST: {}", e);
+                                std::process::exit(1);
                             }
-                            Rule::comment => {
-                                // Preserve comments as-is
-                                formatted_output.push_str(inner_pair.as_str());
-                                formatted_output.push('\n');
-                            }
-                            _ => {}
                         }
                     }
-                }
-                Rule::EOI => {}
-                _ => {}
+                    _ => match pairs_to_expr_with_comments(first_pair.into_inner()) {
+                        Ok(expr) => format_expr(&expr, None),
+                        Err(e) => {
+                            eprintln!("Error converting to AST: {}", e);
+                            std::process::exit(1);
+                        }
+                    },
+                };
+                let formatted = protect_leading_minus(formatted, formatted_statements.is_empty());
+
+                // End-of-line comment (second element in the statement)
+                let formatted = match inner_pairs.next() {
+                    Some(eol_comment) if eol_comment.as_rule() == Rule::comment => {
+                        format!("{}  {}", formatted, eol_comment.as_str())
+                    }
+                    _ => formatted,
+                };
+
+                formatted_statements.push((formatted, start_line, end_line));
             }
+        }
+
+        let mut formatted_output = join_statements_with_spacing(&formatted_statements);
+        if !formatted_output.is_empty() {
+            formatted_output.push('\n');
         }
 
         // Write to output file
